@@ -11,6 +11,7 @@ mod driver;
 mod lexglue;
 mod pinned_triage;
 mod props;
+mod session;
 mod srv;
 mod walk;
 
